@@ -179,7 +179,7 @@ def parse_swc(
     # Leading spaces are allowed, as this is part of the data in
     # neuromorpho.org. More fields at the end is allowed, such as
     # reading eswc as swc, but with a warning.
-    re_swc = re.compile(rf"^\s*{re_swc_cols_str}\s*([\s+-.0-9]*)$")
+    re_swc = re.compile(rf"^\s*{re_swc_cols_str}(?=\s|$)\s*([\s+\-.0-9eE]*)$")
 
     last_group = 7 + len(extras) + 1
     # the column header written by `to_swc`, after the leading `#` is stripped
